@@ -5,6 +5,8 @@
 //! <root> is an absolute directory below .../.cache/c14/ ; it is created, populated from the disk
 //! spec (space-separated: f<path>:<content> | d<path> | l<path>:<target>, paths relative to root),
 //! used and removed again for every case.
+//!   K <root> <unused> <disk spec> <paths>   for every path: fs::canonicalize ; parser::parse_file  (checks the check's OS emulation)
+//!   U <source> <argument>                Path::parent, the pre-processor's join, PathBuf::push   (checks the lexical path model)
 //! output F:  OK <instr>... | ERR <kind> <line> <source>       (same syntax as ocaml/c14_driver.ml)
 //! output R:  <summary of the file run> TAB <summary of the text run>
 //!   summary: <OK|ERR kind>|<emitted argument lists>|<variables>|<errors seen by on_error: msg@line@source>
@@ -248,6 +250,56 @@ fn handle(f: &[&str]) -> String {
             };
             out
         }
+        // unit-level check of the check's OS emulation: canonicalize + parse_file for every listed path
+        "K" => {
+            let root = dec_str(f[1]);
+            if let Err(e) = populate(&root, f[3]) {
+                let _ = fs::remove_dir_all(&root);
+                return format!("SETUP-FAILED {}", enc_str(&e.to_string()));
+            }
+            std::env::set_current_dir(&root).expect("chdir");
+            dec_list(f[4])
+                .iter()
+                .map(|p| {
+                    let c = match fs::canonicalize(p) {
+                        Ok(c) => format!("S{}", enc_str(&c.to_string_lossy())),
+                        Err(_) => "N".to_string(),
+                    };
+                    let r = match parser::parse_file(p) {
+                        Ok(is) => {
+                            let mut v = vec!["OK".to_string()];
+                            v.extend(is.iter().map(instr_s));
+                            v.join(" ")
+                        }
+                        Err(e) => err_s(&e),
+                    };
+                    format!("{};{}", c, r)
+                })
+                .collect::<Vec<_>>()
+                .join("|")
+        }
+        // unit-level check of the lexical path model against std::path (no file system involved):
+        // Path::parent(source); the pre-processor's join (lines 25-38 without canonicalize); PathBuf::push
+        "U" => {
+            let src = dec_str(f[1]);
+            let arg = dec_str(f[2]);
+            let pb = std::path::PathBuf::from(&src);
+            let par = match pb.parent() {
+                Some(p) => format!("S{}", enc_str(&p.to_string_lossy())),
+                None => "N".to_string(),
+            };
+            let joined = match pb.parent() {
+                Some(path) => {
+                    let mut b = path.to_path_buf();
+                    b.push(&arg);
+                    b.to_string_lossy().into_owned()
+                }
+                None => arg.to_string(),
+            };
+            let mut pushed = std::path::PathBuf::from(&src);
+            pushed.push(&arg);
+            format!("{}\t{}\t{}", par, enc_str(&joined), enc_str(&pushed.to_string_lossy()))
+        }
         _ => "BADLINE".to_string(),
     }
 }
@@ -273,7 +325,7 @@ fn main() {
             close(saved);
         }
         let _ = std::env::set_current_dir(&home);
-        if fields.len() > 1 && (fields[0] == "F" || fields[0] == "R") {
+        if fields.len() > 1 && (fields[0] == "F" || fields[0] == "R" || fields[0] == "K") {
             let root = dec_str(fields[1]);
             if root.contains("/.cache/c14/") && !root.contains("..") {
                 let _ = fs::remove_dir_all(&root);
